@@ -769,6 +769,11 @@ func vrfC10ClientScript(h *vrfCli, rng *rand.Rand, d *vrfC10Desc) {
 		switch t {
 		case "body-closed":
 			rq.app.send(vrfCmd{'c', 0})
+			if rng.IntN(2) == 0 {
+				rq.app.send(vrfCmd{'C', 0})
+				h.R.Event("client_bodies_closed_twice", 1)
+				d.note("app s=%d closes the body a second time", rq.id)
+			}
 		case "ctx-cancel":
 			rq.cancel()
 		case "server-rst":
